@@ -19,7 +19,7 @@
 #define FN_EINTR 2
 #define FN_EOF 3
 #define FN_ERR 4
-#define FN_MAXANS 8192
+#define FN_MAXANS 70000
 struct fn_ans { int kind; long n; int err; long long at; };
 struct fn_list { struct fn_ans * a; int n, h; };
 struct fn_fd {
@@ -252,6 +252,29 @@ static int fn_nplan;
 static int fn_attempt;		/* index of the address whose attempt comes next */
 static int fn_last_socket = -1;
 
+/* template applied to every socket created by socket(): answer lists with times relative to its creation */
+static struct fn_fd fn_template;
+static int fn_use_template;
+static inline void
+fn_template_apply(int lfd)
+{
+	struct fn_fd * F = &fn_fds[lfd];
+	struct fn_list * src[2] = { &fn_template.rx, &fn_template.tx };
+	struct fn_list * dst[2] = { &F->rx, &F->tx };
+	int k, i;
+
+	for (k = 0; k < 2; k++) {
+		dst[k]->n = src[k]->n; dst[k]->h = 0;
+		dst[k]->a = __real_calloc((size_t)(src[k]->n + 1), sizeof(struct fn_ans));
+		for (i = 0; i < src[k]->n; i++) {
+			dst[k]->a[i] = src[k]->a[i];
+			dst[k]->a[i].at += fk_clock_us;
+		}
+	}
+	F->content = fn_template.content; F->contentlen = fn_template.contentlen;
+	F->capture = fn_template.capture; F->hup_on_eof = fn_template.hup_on_eof;
+}
+
 int __wrap_socket(int, int, int);
 int
 __wrap_socket(int domain, int type, int protocol)
@@ -269,6 +292,8 @@ __wrap_socket(int domain, int type, int protocol)
 	memset(&fn_fds[lfd], 0, sizeof(struct fn_fd));
 	fn_fds[lfd].addr = -1;
 	fn_last_socket = lfd;
+	if (fn_use_template)
+		fn_template_apply(lfd);
 	vt_begin("socket"); vt_int("fd", lfd); vt_end();
 	return (fk_real(lfd));
 }
